@@ -128,6 +128,17 @@ def search(ctx, N):
                 ref = float(np.dot(exact, v) / np.linalg.norm(v))
                 if not abs(float(dd) - ref) <= 1e-8 * (1 + abs(ref)) + 100 * float(np.ravel(info.error_estimate)[0]):
                     ctx.violation('dirdiff', 'directionaldiff(f, x, v) = %r but Gradient(f)(x) . v/|v| = %r' % (float(dd), ref), dict(desc, v=v.tolist()))
+                # the direction only has to have the same SIZE as x: a column or a flat vector against a flat / matrix-shaped x
+                if n >= 2:
+                    for sx, sv in (((n, 1), (n,)), ((n,), (n, 1)), ((1, n), (n,))) + ((((2, n // 2), (n,)),) if n % 2 == 0 and n >= 4 else ()):
+                        try:
+                            dd3 = nd.directionaldiff(lambda t, f=f: f(np.ravel(t)), x.reshape(sx), v.reshape(sv), method=method if method != 'multicomplex' else 'central')
+                        except Exception as ex:   # noqa
+                            ctx.violation('dirdiff-raises:same-size', 'directionaldiff(f, x of shape %r, v of shape %r) raises %r although v has the same size as x' % (sx, sv, ex), dict(desc, v=v.tolist()))
+                            continue
+                        ctx.count(1, ('dirdiff-same-size', method))
+                        if not abs(float(dd3) - ref) <= 1e-7 * (1 + abs(ref)) + 100 * float(np.ravel(info.error_estimate)[0]):
+                            ctx.violation('dirdiff-same-size', 'directionaldiff(f, x of shape %r, v of shape %r) = %r but Gradient(f)(x) . v/|v| = %r' % (sx, sv, float(dd3), ref), dict(desc, v=v.tolist()))
                 # matrix-shaped x0 and direction (same shapes, at least 2 x 2): the direction is normalised by its Euclidean length
                 if n >= 4 and n % 2 == 0:
                     shp = (2, n // 2)
